@@ -101,9 +101,8 @@ theorem natE_params (hg : KwOnly g) {f : Nat} (ih : NatE t g f) : ∀ ts,
   | [a] => simp [parseParams, Params.mapKw]
   | nm :: col :: ts =>
     simp only [List.map_cons, parseParams, mapTok_kind, mapTok_lex]
-    by_cases hc : nm.kind = .ID ∧ col.kind = .COLON
-    · have hid : g Kind.ID nm.lex = nm.lex := hg _ rfl _
-      simp only [hc, and_self, ↓reduceIte, hid]
+    by_cases hc : nm.kind.isIdent = true ∧ col.kind = .COLON
+    · simp only [hc, and_self, ↓reduceIte]
       rw [ih.expr]
       cases he : parseExpr t f 0 ts with
       | none => simp
@@ -117,8 +116,8 @@ theorem natE_params (hg : KwOnly g) {f : Nat} (ih : NatE t g f) : ∀ ts,
           | none => simp
           | some q =>
             obtain ⟨ps, ts''⟩ := q
-            simp [Params.mapKw, hid]
-        · simp [hcm, Params.mapKw, hid]
+            simp [Params.mapKw, mapTok]
+        · simp [hcm, Params.mapKw, mapTok]
     · simp [hc, Params.mapKw]
 
 theorem natE_suffix (hg : KwOnly g) {f : Nat} (ih : NatE t g f) : ∀ h ts,
@@ -134,9 +133,8 @@ theorem natE_suffix (hg : KwOnly g) {f : Nat} (ih : NatE t g f) : ∀ h ts,
       | [] => simp
       | nm :: ts1 =>
         simp only [List.map_cons, mapTok_kind, mapTok_lex, hk_map, isStruct_mapKw, isChain_mapKw, drop1_map]
-        by_cases hid : nm.kind = .ID
-        · have hidl : g Kind.ID nm.lex = nm.lex := hg _ rfl _
-          simp only [hid, ↓reduceIte, hidl]
+        by_cases hid : nm.kind.isIdent = true
+        · simp only [hid, ↓reduceIte]
           by_cases hlp : hk ts1 = some .LPAREN
           · simp only [hlp, ↓reduceIte]
             by_cases hs : h.isStruct = true
@@ -147,13 +145,13 @@ theorem natE_suffix (hg : KwOnly g) {f : Nat} (ih : NatE t g f) : ∀ h ts,
               | some q =>
                 obtain ⟨ps, ts2⟩ := q
                 simp only [mapRes_some, hk_map, drop1_map]
-                by_cases hrp : hk ts2 = some .RPAREN <;> simp [hrp, Expr.mapKw, hidl]
+                by_cases hrp : hk ts2 = some .RPAREN <;> simp [hrp, Expr.mapKw, mapTok]
             · simp [hs]
           · simp only [hlp, ↓reduceIte]
             by_cases hc : h.isChain = true
             · simp only [hc, ↓reduceIte]
-              have := ih.suffix (.field h nm.lex) ts1
-              simpa [Expr.mapKw] using this
+              have := ih.suffix (.field h nm) ts1
+              simpa [Expr.mapKw, mapTok] using this
             · simp [hc]
         · simp [hid]
     · by_cases h2 : tok.kind = .LSQBR
@@ -191,24 +189,28 @@ theorem natE_pre (hg : KwOnly g) {f : Nat} (ih : NatE t g f) : ∀ ts,
         obtain ⟨e, ts'⟩ := p
         simp [Expr.mapKw, mapTok]
     · simp only [hu, Bool.false_eq_true, ↓reduceIte]
+      by_cases hvn : tok.kind.isVarName = true
+      · simp only [hvn, ↓reduceIte]
+        have := ih.suffix (.var tok) ts
+        simpa [Expr.mapKw] using this
+      simp only [hvn, Bool.false_eq_true, ↓reduceIte]
       have hparam : (match List.map (mapTok g) ts with
             | d :: nm :: ts' =>
-              if d.kind = Kind.DOT ∧ nm.kind = Kind.ID then parseSuffix t f (Expr.param nm.lex) ts' else none
+              if d.kind = Kind.DOT ∧ nm.kind.isVarName = true then parseSuffix t f (Expr.param nm) ts' else none
             | _ => none) =
           mapRes (Expr.mapKw g) (mapTok g)
             (match ts with
             | d :: nm :: ts' =>
-              if d.kind = Kind.DOT ∧ nm.kind = Kind.ID then parseSuffix t f (Expr.param nm.lex) ts' else none
+              if d.kind = Kind.DOT ∧ nm.kind.isVarName = true then parseSuffix t f (Expr.param nm) ts' else none
             | _ => none) := by
         match ts with
         | [] => simp
         | [d] => simp
         | d :: nm :: ts' =>
           simp only [List.map_cons, mapTok_kind, mapTok_lex]
-          by_cases hc : d.kind = .DOT ∧ nm.kind = .ID
-          · have hid : g Kind.ID nm.lex = nm.lex := hg _ rfl _
-            simp only [hc, and_self, ↓reduceIte, hid]
-            have := ih.suffix (.param nm.lex) ts'
+          by_cases hc : d.kind = .DOT ∧ nm.kind.isVarName = true
+          · simp only [hc, and_self, ↓reduceIte]
+            have := ih.suffix (.param nm) ts'
             simpa [Expr.mapKw] using this
           · simp [hc]
       split
@@ -223,10 +225,6 @@ theorem natE_pre (hg : KwOnly g) {f : Nat} (ih : NatE t g f) : ∀ ts,
         simp [Expr.mapKw, this]
       · next hk' => simp [Expr.mapKw, hk']
       · next hk' => simp [Expr.mapKw, hk']
-      · next hk' =>
-        have hid := hg tok.kind (by rw [hk']; rfl) tok.lex
-        have := ih.suffix (.var tok.lex) ts
-        simpa [Expr.mapKw, hid] using this
       · have := ih.suffix .self ts
         simpa [Expr.mapKw] using this
       · have := ih.suffix .selected ts
@@ -240,9 +238,8 @@ theorem natE_pre (hg : KwOnly g) {f : Nat} (ih : NatE t g f) : ∀ ts,
         | [d] => simp
         | dc :: nm :: ts' =>
           simp only [List.map_cons, mapTok_kind, mapTok_lex, hk_map, drop1_map]
-          by_cases hc : dc.kind = .DOUBLECOLON ∧ nm.kind = .ID
-          · have hid : g Kind.ID nm.lex = nm.lex := hg _ rfl _
-            simp only [hc, and_self, ↓reduceIte, hid, hns]
+          by_cases hc : dc.kind = .DOUBLECOLON ∧ nm.kind.isIdent = true
+          · simp only [hc, and_self, ↓reduceIte, hns]
             by_cases hlp : hk ts' = some .LPAREN
             · simp only [hlp, ↓reduceIte]
               rw [ih.params]
@@ -251,24 +248,23 @@ theorem natE_pre (hg : KwOnly g) {f : Nat} (ih : NatE t g f) : ∀ ts,
               | some q =>
                 obtain ⟨ps, ts2⟩ := q
                 simp only [mapRes_some, hk_map, drop1_map]
-                by_cases hrp : hk ts2 = some .RPAREN <;> simp [hrp, Expr.mapKw]
-            · simp [hlp, Expr.mapKw]
+                by_cases hrp : hk ts2 = some .RPAREN <;> simp [hrp, Expr.mapKw, mapTok]
+            · simp [hlp, Expr.mapKw, mapTok]
           · simp [hc]
       · match ts with
         | [] => simp
         | [d] => simp
         | nm :: lp :: ts' =>
           simp only [List.map_cons, mapTok_kind, mapTok_lex, hk_map, drop1_map]
-          by_cases hc : nm.kind = .ID ∧ lp.kind = .LPAREN
-          · have hid : g Kind.ID nm.lex = nm.lex := hg _ rfl _
-            simp only [hc, and_self, ↓reduceIte, hid]
+          by_cases hc : nm.kind.isIdent = true ∧ lp.kind = .LPAREN
+          · simp only [hc, and_self, ↓reduceIte]
             rw [ih.params]
             cases hps : parseParams t f ts' with
             | none => simp
             | some q =>
               obtain ⟨ps, ts2⟩ := q
               simp only [mapRes_some, hk_map, drop1_map]
-              by_cases hrp : hk ts2 = some .RPAREN <;> simp [hrp, Expr.mapKw]
+              by_cases hrp : hk ts2 = some .RPAREN <;> simp [hrp, Expr.mapKw, mapTok]
           · simp [hc]
       · rw [ih.expr]
         cases he : parseExpr t f 0 ts with
@@ -300,15 +296,20 @@ theorem expectK_map (k : Kind) (ts : List Tok) :
   | nil => rfl
   | cons tok ts => by_cases h : tok.kind = k <;> simp [expectK, h]
 
-theorem takeId_map (hg : KwOnly g) (ts : List Tok) :
-    takeId (ts.map (mapTok g)) = mapRes id (mapTok g) (takeId ts) := by
+theorem takeIdent_map (ts : List Tok) :
+    takeIdent (ts.map (mapTok g)) = mapRes (mapTok g) (mapTok g) (takeIdent ts) := by
   cases ts with
   | nil => rfl
-  | cons tok ts =>
-    by_cases h : tok.kind = .ID
-    · have := hg .ID rfl tok.lex
-      simp [takeId, h, this]
-    · simp [takeId, h]
+  | cons tok ts => by_cases h : tok.kind.isIdent = true <;> simp [takeIdent, h]
+
+theorem takeVarName_map (ts : List Tok) :
+    takeVarName (ts.map (mapTok g)) = mapRes (mapTok g) (mapTok g) (takeVarName ts) := by
+  cases ts with
+  | nil => rfl
+  | cons tok ts => by_cases h : tok.kind.isVarName = true <;> simp [takeVarName, h]
+
+theorem hkIs_map (p : Kind → Bool) (ts : List Tok) : hkIs p (ts.map (mapTok g)) = hkIs p ts := by
+  cases ts <;> rfl
 
 theorem optK_map (k : Kind) (ts : List Tok) :
     optK k (ts.map (mapTok g)) = ((optK k ts).1, (optK k ts).2.map (mapTok g)) := by
@@ -319,28 +320,22 @@ theorem parseInstName_map (hg : KwOnly g) (ts : List Tok) :
   cases ts with
   | nil => rfl
   | cons tok ts =>
-    by_cases h : tok.kind = .ID
-    · have := hg .ID rfl tok.lex
-      simp [parseInstName, h, this, InstName.mapKw]
-    · by_cases h2 : tok.kind = .SELF
-      · simp [parseInstName, h2, InstName.mapKw]
-      · simp [parseInstName, h, h2]
+    by_cases h2 : tok.kind = .SELF
+    · simp [parseInstName, h2, InstName.mapKw]
+    · by_cases h : tok.kind.isVarName = true <;> simp [parseInstName, h, h2, InstName.mapKw]
 
 theorem parsePhrase_map (hg : KwOnly g) (ts : List Tok) :
-    parsePhrase (ts.map (mapTok g)) = mapRes id (mapTok g) (parsePhrase ts) := by
+    parsePhrase (ts.map (mapTok g)) = mapRes (Phrase.mapKw g) (mapTok g) (parsePhrase ts) := by
   cases ts with
   | nil => rfl
   | cons tok ts =>
     by_cases h : tok.kind = .TICKED_PHRASE
     · have := hg .TICKED_PHRASE rfl tok.lex
-      simp [parsePhrase, h, this]
-    · by_cases h2 : tok.kind = .ID
-      · have := hg .ID rfl tok.lex
-        simp [parsePhrase, h2, this]
-      · simp [parsePhrase, h, h2]
+      simp [parsePhrase, h, this, Phrase.mapKw]
+    · by_cases h2 : tok.kind.isIdent = true <;> simp [parsePhrase, h, h2, Phrase.mapKw]
 
 theorem parseOptPhrase_map (hg : KwOnly g) (ts : List Tok) :
-    parseOptPhrase (ts.map (mapTok g)) = mapRes id (mapTok g) (parseOptPhrase ts) := by
+    parseOptPhrase (ts.map (mapTok g)) = mapRes (Option.map (Phrase.mapKw g)) (mapTok g) (parseOptPhrase ts) := by
   simp only [parseOptPhrase, hk_map, drop1_map]
   by_cases h : hk ts = some .DOT
   · simp only [h, ↓reduceIte, parsePhrase_map g hg]
@@ -350,13 +345,13 @@ theorem parseOptPhrase_map (hg : KwOnly g) (ts : List Tok) :
   · simp [h]
 
 theorem parseNavStep_map (hg : KwOnly g) (ts : List Tok) :
-    parseNavStep (ts.map (mapTok g)) = mapRes id (mapTok g) (parseNavStep ts) := by
+    parseNavStep (ts.map (mapTok g)) = mapRes (NavStep.mapKw g) (mapTok g) (parseNavStep ts) := by
   simp only [parseNavStep, expectK_map, Option.bind_eq_bind, Option.pure_def]
   cases h1 : expectK .ARROW ts with
   | none => simp
   | some ts1 =>
-    simp only [Option.map_some, Option.bind_some, takeId_map g hg]
-    cases h2 : takeId ts1 with
+    simp only [Option.map_some, Option.bind_some, takeIdent_map g]
+    cases h2 : takeIdent ts1 with
     | none => simp
     | some p2 =>
       obtain ⟨kl, ts2⟩ := p2
@@ -364,8 +359,8 @@ theorem parseNavStep_map (hg : KwOnly g) (ts : List Tok) :
       cases h3 : expectK .LSQBR ts2 with
       | none => simp
       | some ts3 =>
-        simp only [Option.map_some, Option.bind_some, takeId_map g hg]
-        cases h4 : takeId ts3 with
+        simp only [Option.map_some, Option.bind_some, takeIdent_map g]
+        cases h4 : takeIdent ts3 with
         | none => simp
         | some p4 =>
           obtain ⟨r, ts4⟩ := p4
@@ -377,10 +372,10 @@ theorem parseNavStep_map (hg : KwOnly g) (ts : List Tok) :
             simp only [mapRes_some, id_eq, Option.bind_some, expectK_map]
             cases h6 : expectK .RSQBR ts5 with
             | none => simp
-            | some ts6 => simp
+            | some ts6 => simp [NavStep.mapKw]
 
 theorem parseNavChain_map (hg : KwOnly g) : ∀ f ts,
-    parseNavChain f (ts.map (mapTok g)) = mapRes id (mapTok g) (parseNavChain f ts)
+    parseNavChain f (ts.map (mapTok g)) = mapRes (List.map (NavStep.mapKw g)) (mapTok g) (parseNavChain f ts)
   | 0, ts => by simp [parseNavChain]
   | f + 1, ts => by
     simp only [parseNavChain, parseNavStep_map g hg]
@@ -435,7 +430,7 @@ theorem parseOptWhere_map (hg : KwOnly g) (f : Nat) (ts : List Tok) :
   · simp [h]
 
 theorem parseEvMeaning_map (hg : KwOnly g) (ts : List Tok) :
-    parseEvMeaning (ts.map (mapTok g)) = mapRes id (mapTok g) (parseEvMeaning ts) := by
+    parseEvMeaning (ts.map (mapTok g)) = mapRes (Option.map (Phrase.mapKw g)) (mapTok g) (parseEvMeaning ts) := by
   simp only [parseEvMeaning, hk_map, drop1_map, parsePhrase_map g hg]
   by_cases h : hk ts = some .COLON
   · simp only [h, ↓reduceIte]
@@ -444,9 +439,9 @@ theorem parseEvMeaning_map (hg : KwOnly g) (ts : List Tok) :
     | some p => obtain ⟨x, r⟩ := p; simp
   · simp [h]
 
-theorem parseEvData_map (hg : KwOnly g) (f : Nat) (id' : String) (star : Bool) (meaning : Option String)
+theorem parseEvData_map (hg : KwOnly g) (f : Nat) (id' : Tok) (star : Bool) (meaning : Option Phrase)
     (ts : List Tok) :
-    parseEvData t f id' star meaning (ts.map (mapTok g)) =
+    parseEvData t f (mapTok g id') star (meaning.map (Phrase.mapKw g)) (ts.map (mapTok g)) =
       mapRes (EvSpec.mapKw g) (mapTok g) (parseEvData t f id' star meaning ts) := by
   simp only [parseEvData, hk_map, drop1_map, parseParams_map t g hg]
   by_cases h : hk ts = some .LPAREN
@@ -463,8 +458,8 @@ theorem parseEvData_map (hg : KwOnly g) (f : Nat) (id' : String) (star : Bool) (
 
 theorem parseEvSpec_map (hg : KwOnly g) (f : Nat) (ts : List Tok) :
     parseEvSpec t f (ts.map (mapTok g)) = mapRes (EvSpec.mapKw g) (mapTok g) (parseEvSpec t f ts) := by
-  simp only [parseEvSpec, takeId_map g hg]
-  cases takeId ts with
+  simp only [parseEvSpec, takeIdent_map g]
+  cases takeIdent ts with
   | none => simp
   | some p =>
     obtain ⟨id', ts1⟩ := p
@@ -477,22 +472,20 @@ theorem parseEvSpec_map (hg : KwOnly g) (f : Nat) (ts : List Tok) :
       exact parseEvData_map t g hg f id' _ m ts2
 
 theorem startsEvSpec_map (ts : List Tok) : startsEvSpec (ts.map (mapTok g)) = startsEvSpec ts := by
-  simp only [startsEvSpec, hk_map, drop1_map]
+  simp only [startsEvSpec, hk_map, drop1_map, hkIs_map]
 
 theorem parseEvTarget_map (hg : KwOnly g) (f : Nat) (ts : List Tok) :
     parseEvTarget t f (ts.map (mapTok g)) = mapRes (EvTarget.mapKw g) (mapTok g) (parseEvTarget t f ts) := by
-  simp only [parseEvTarget, hk_map, drop1_map, parseAccess_map t g hg]
-  by_cases h : hk ts = some .ID ∧ isClassWord (hk (List.drop 1 ts)) = true
+  simp only [parseEvTarget, hk_map, drop1_map, hkIs_map, parseAccess_map t g hg]
+  by_cases h : hkIs Kind.isIdent ts = true ∧ isClassWord (hk (List.drop 1 ts)) = true
   · simp only [h, and_self, ↓reduceIte]
     match ts with
     | [] => simp
     | [a] => simp
     | nm :: w :: ts' =>
-      have hid : nm.kind = .ID := by simpa using h.1
-      have := hg .ID rfl nm.lex
       by_cases hc : w.kind = .CREATOR
-      · simp [hc, hid, this, EvTarget.mapKw]
-      · by_cases ha : w.kind = .ASSIGNER <;> simp [hc, ha, hid, this, EvTarget.mapKw]
+      · simp [hc, EvTarget.mapKw]
+      · by_cases ha : w.kind = .ASSIGNER <;> simp [hc, ha, EvTarget.mapKw]
   · simp only [h, ↓reduceIte]
     cases parseAccess t f ts with
     | none => simp
@@ -585,8 +578,8 @@ theorem parseRel_map (hg : KwOnly g) (un : Bool) (ts : List Tok) :
         cases expectK .ACROSS ts3 with
         | none => simp
         | some ts4 =>
-          simp only [Option.map_some, takeId_map g hg]
-          cases takeId ts4 with
+          simp only [Option.map_some, takeVarName_map g]
+          cases takeVarName ts4 with
           | none => simp
           | some p5 =>
             obtain ⟨r, ts5⟩ := p5
@@ -616,26 +609,29 @@ theorem parseCard_map (ts : List Tok) :
         · simp [parseCard, h3, CardTok.mapKw, Card.kind]
         · simp [parseCard, h1, h2, h3]
 
+theorem drop2_map (ts : List Tok) : List.drop 2 (ts.map (mapTok g)) = (List.drop 2 ts).map (mapTok g) := by
+  match ts with
+  | [] => rfl
+  | [a] => rfl
+  | a :: b :: r => rfl
+
 theorem parseInstOf_map (ts : List Tok) :
     parseInstOf (ts.map (mapTok g)) = mapRes id (mapTok g) (parseInstOf ts) := by
-  simp only [parseInstOf, hk_map, drop1_map, expectK_map]
-  by_cases h : hk ts = some .INSTANCES
-  · simp only [h, ↓reduceIte]
-    cases expectK .OF (List.drop 1 ts) with
-    | none => simp
-    | some r => simp
-  · simp [h]
+  simp only [parseInstOf, hk_map, drop1_map, drop2_map]
+  by_cases h : hk ts = some .INSTANCES ∧ hk (List.drop 1 ts) = some .OF
+  · simp only [h, and_self, ↓reduceIte, mapRes_some, id_eq]
+  · simp only [h, ↓reduceIte, mapRes_some, id_eq]
 
-theorem parseSelFrom_map (hg : KwOnly g) (f : Nat) (card : CardTok) (v : String) (ts : List Tok) :
-    parseSelFrom t f (card.mapKw g) v (ts.map (mapTok g)) =
+theorem parseSelFrom_map (hg : KwOnly g) (f : Nat) (card : CardTok) (v : Tok) (ts : List Tok) :
+    parseSelFrom t f (card.mapKw g) (mapTok g v) (ts.map (mapTok g)) =
       mapRes (Stmt.mapKw g) (mapTok g) (parseSelFrom t f card v ts) := by
   simp only [parseSelFrom, parseInstOf_map]
   cases parseInstOf ts with
   | none => simp
   | some p1 =>
     obtain ⟨io, ts1⟩ := p1
-    simp only [mapRes_some, id_eq, takeId_map g hg]
-    cases takeId ts1 with
+    simp only [mapRes_some, id_eq, takeIdent_map g]
+    cases takeIdent ts1 with
     | none => simp
     | some p2 =>
       obtain ⟨kl, ts2⟩ := p2
@@ -644,8 +640,8 @@ theorem parseSelFrom_map (hg : KwOnly g) (f : Nat) (card : CardTok) (v : String)
       | none => simp
       | some p3 => obtain ⟨w, ts3⟩ := p3; simp [Stmt.mapKw]
 
-theorem parseSelRel_map (hg : KwOnly g) (f : Nat) (card : CardTok) (v : String) (ts : List Tok) :
-    parseSelRel t f (card.mapKw g) v (ts.map (mapTok g)) =
+theorem parseSelRel_map (hg : KwOnly g) (f : Nat) (card : CardTok) (v : Tok) (ts : List Tok) :
+    parseSelRel t f (card.mapKw g) (mapTok g v) (ts.map (mapTok g)) =
       mapRes (Stmt.mapKw g) (mapTok g) (parseSelRel t f card v ts) := by
   simp only [parseSelRel, parseAccess_map t g hg]
   cases parseAccess t f ts with
@@ -672,8 +668,8 @@ theorem parseSelect_map (hg : KwOnly g) (f : Nat) (ts : List Tok) :
   | none => simp
   | some p1 =>
     obtain ⟨card, ts1⟩ := p1
-    simp only [mapRes_some, takeId_map g hg]
-    cases takeId ts1 with
+    simp only [mapRes_some, takeVarName_map g]
+    cases takeVarName ts1 with
     | none => simp
     | some p2 =>
       obtain ⟨v, ts2⟩ := p2
@@ -711,7 +707,8 @@ structure NatS (f : Nat) : Prop where
 
 set_option hygiene false in
 local macro "step" : tactic => `(tactic|
-  simp only [mapRes_some, mapRes_none, Option.map_some, Option.map_none, id_eq, expectK_map, takeId_map g hg, hk_map,
+  simp only [mapRes_some, mapRes_none, Option.map_some, Option.map_none, id_eq, expectK_map, takeIdent_map g,
+    takeVarName_map g, hk_map,
     drop1_map, optK_map, parseExpr_map t g hg, parseAccess_map t g hg, parseEvSpec_map t g hg,
     parseEvTarget_map t g hg, parseInstName_map g hg, startsEvSpec_map, isVarAccess_mapKw, isHook_mapKw,
     isInvocation_mapKw, ih.block, ih.elifs, ih.els, ih.stmt, ↓reduceIte, Stmt.mapKw, Option.map])
@@ -758,7 +755,13 @@ theorem natS_stmt (hg : KwOnly g) {f : Nat} (ih : NatS t g f) : ∀ ts,
             | some q => obtain ⟨e, r⟩ := q; simp [Stmt.mapKw]
           · simp [he, hv]
         · by_cases hi : x.isInvocation = true <;> simp [he, hi, Stmt.mapKw]
-    simp only [List.map_cons, parseStmt, mapTok_kind]
+    have hsm : startsAccessStmt (mapTok g tok) (List.map (mapTok g) ts) = startsAccessStmt tok ts := by
+      simp only [startsAccessStmt, mapTok_kind, hk_map]
+    simp only [List.map_cons, parseStmt, mapTok_kind, hsm]
+    by_cases hsa : startsAccessStmt tok ts = true
+    · simp only [hsa, ↓reduceIte]
+      exact hacc
+    simp only [hsa, Bool.false_eq_true, ↓reduceIte]
     split
     · simp [Stmt.mapKw]
     · simp [Stmt.mapKw]
@@ -785,13 +788,6 @@ theorem natS_stmt (hg : KwOnly g) {f : Nat} (ih : NatS t g f) : ∀ ts,
           | none => simp
           | some q => obtain ⟨e, r⟩ := q; simp [Stmt.mapKw]
         · simp [hc]
-    · exact hacc
-    · exact hacc
-    · exact hacc
-    · exact hacc
-    · exact hacc
-    · exact hacc
-    · exact hacc
     · exact parseKw_map t g hg f _ ts
     · exact parseKw_map t g hg f _ ts
     · exact parseKw_map t g hg f _ ts
@@ -826,7 +822,7 @@ theorem natS_stmt (hg : KwOnly g) {f : Nat} (ih : NatS t g f) : ∀ ts,
         | none => simp
         | some ts1 =>
           step
-          cases takeId ts1 with
+          cases takeVarName ts1 with
           | none => simp
           | some p2 =>
             obtain ⟨v, ts2⟩ := p2
@@ -858,11 +854,11 @@ theorem natS_stmt (hg : KwOnly g) {f : Nat} (ih : NatS t g f) : ∀ ts,
             step
             by_cases ho : hk ts2 = some .OF
             · simp only [ho, ↓reduceIte]
-              cases takeId (List.drop 1 ts2) with
+              cases takeIdent (List.drop 1 ts2) with
               | none => simp
               | some p3 => obtain ⟨kl, ts3⟩ := p3; simp [Stmt.mapKw]
             · simp only [ho, ↓reduceIte]
-              cases takeId ts2 with
+              cases takeVarName ts2 with
               | none => simp
               | some p3 =>
                 obtain ⟨v, ts3⟩ := p3
@@ -871,7 +867,7 @@ theorem natS_stmt (hg : KwOnly g) {f : Nat} (ih : NatS t g f) : ∀ ts,
                 | none => simp
                 | some ts4 =>
                   step
-                  cases takeId ts4 with
+                  cases takeIdent ts4 with
                   | none => simp
                   | some p5 => obtain ⟨kl, ts5⟩ := p5; simp [Stmt.mapKw]
     · -- DELETE
@@ -893,7 +889,7 @@ theorem natS_stmt (hg : KwOnly g) {f : Nat} (ih : NatS t g f) : ∀ ts,
       | none => simp
       | some ts1 =>
         step
-        cases takeId ts1 with
+        cases takeVarName ts1 with
         | none => simp
         | some p2 =>
           obtain ⟨v, ts2⟩ := p2
@@ -902,7 +898,7 @@ theorem natS_stmt (hg : KwOnly g) {f : Nat} (ih : NatS t g f) : ∀ ts,
           | none => simp
           | some ts3 =>
             step
-            cases takeId ts3 with
+            cases takeVarName ts3 with
             | none => simp
             | some p4 =>
               obtain ⟨st, ts4⟩ := p4
@@ -1129,10 +1125,10 @@ theorem SameButKeywords.map_erase {ts ts' : List Tok} (h : SameButKeywords ts ts
 
 /-- **statements, sharp form.**  If two token lists have the same kinds and agree on the lexemes of all
     non-keyword tokens (identifiers, numbers, strings, phrases, punctuation), then either both are rejected
-    or both parse, and the two trees are equal once the fields that hold a keyword's spelling (select
-    cardinality, operator of unary / binary nodes, boolean literal value, `self` as an instance name) are
-    blanked: every other field — identifiers, literals, phrases, relationship ids, the optional-word choices,
-    the shape of the tree — is the same. -/
+    or both parse, and the two trees are equal once the fields that hold the lexeme of a keyword-kind token
+    (select cardinality, operator of unary / binary nodes, boolean literal value, `self` as an instance name,
+    and any NAME that is a keyword token — kw_as_identifier) are blanked: every other field — names that are ID
+    tokens, literals, ticked phrases, namespaces, the optional-word choices, the shape of the tree — is the same. -/
 theorem parseStmts_sameButKeywords (t : Tbl) {ts ts' : List Tok} (h : SameButKeywords ts ts') :
     (parseStmts t ts').map eraseCase = (parseStmts t ts).map eraseCase := by
   have h1 := parseStmts_mapTok t eraseKw kwOnly_eraseKw ts
@@ -1215,9 +1211,10 @@ private def lower : List Tok :=
    tk .RETURN "return", tk .NOT_EMPTY "not_empty", tk .ID "x", tk .SEMICOLON ";"]
 
 private def treeOf (andLex trueLex manyLex selfLex neLex : String) : Block :=
-  .cons (.if_ (.bin (.var "a") ⟨.AND, andLex⟩ (.bool true trueLex)) false
-      (.cons (.selFrom ⟨.many, manyLex⟩ "x" true "K" none) (.cons (.delete (.self selfLex)) .nil)) .nil .none)
-    (.cons (.ret (some (.un ⟨.NOT_EMPTY, neLex⟩ (.var "x")))) .nil)
+  .cons (.if_ (.bin (.var (tk .ID "a")) ⟨.AND, andLex⟩ (.bool true trueLex)) false
+      (.cons (.selFrom ⟨.many, manyLex⟩ (tk .ID "x") true (tk .ID "K") none) (.cons (.delete (.self selfLex)) .nil))
+      .nil .none)
+    (.cons (.ret (some (.un ⟨.NOT_EMPTY, neLex⟩ (.var (tk .ID "x"))))) .nil)
 
 -- the hypothesis of the theorems holds of the pair …
 example : Respelling mixed lower := by
@@ -1236,6 +1233,19 @@ example : (parseStmts table lower).map normCase = (parseStmts table mixed).map n
 -- a rejected body stays rejected in any spelling: `RETURN a < b < c;`
 example : parseStmts table [tk .RETURN "RETURN", tk .ID "a", tk .LESSTHAN "<", tk .ID "b", tk .LESSTHAN "<", tk .ID "c",
     tk .SEMICOLON ";"] = none := by rfl
+-- a keyword used as a NAME (`x = To;` — the grammar's kw_as_identifier alternatives) is a keyword token, so
+-- `x = To;` and `x = TO;` are re-spellings of each other; the parser keeps the spelling in the name (as oal.py
+-- does: VariableAccessNode('To') vs VariableAccessNode('TO')), and `normCase` lower-cases it like every other
+-- keyword lexeme.  So the two trees are equal only up to the case of that NAME.
+example : Respelling [tk .ID "x", tk .EQUAL "=", tk .TO "To", tk .SEMICOLON ";"]
+    [tk .ID "x", tk .EQUAL "=", tk .TO "TO", tk .SEMICOLON ";"] := by
+  repeat (first | exact Zip.nil | refine Zip.cons ⟨rfl, by decide⟩ ?_)
+example : parseStmts table [tk .ID "x", tk .EQUAL "=", tk .TO "To", tk .SEMICOLON ";"] =
+    some (.cons (.assign false (.var (tk .ID "x")) (.var (tk .TO "To"))) .nil) := by rfl
+example : parseStmts table [tk .ID "x", tk .EQUAL "=", tk .TO "TO", tk .SEMICOLON ";"] =
+    some (.cons (.assign false (.var (tk .ID "x")) (.var (tk .TO "TO"))) .nil) := by rfl
+example : normCase (.cons (.assign false (.var (tk .ID "x")) (.var (tk .TO "To"))) .nil) =
+    .cons (.assign false (.var (tk .ID "x")) (.var (tk .TO "to"))) .nil := by rfl
 -- changing an IDENTIFIER's case is not a re-spelling
 example : ¬ Tok.Respells (tk .ID "K") (tk .ID "k") := by
   intro h
